@@ -673,3 +673,37 @@ def L7m(tier, scheds=('fwd', 'bwd')):
                             for bal in (True, False):
                                 yield Scenario(sched, bal, A, mk_tasks((None, None), attrs), list(links),
                                                cals={'A': 'wk7', 'B': calb}, layer='L7m')
+
+
+def L2ms(tier, scheds=('fwd', 'bwd')):
+    """A summary task that carries the milestone flag (a phase gate used as a grouping task). The properties about summaries'
+    own dates (C07) and about milestone placement (C02) contradict each other there and do not use this layer; the properties
+    about the LEAVES (every leaf is scheduled and reserves its remaining work, the result mirrors the input, calc ends properly) do."""
+    for n in (2, 3, 4):
+        for par in forests(n):
+            lv = [i for i in range(n) if is_leaf(par, i)]
+            summ = [i for i in range(n) if i not in lv]
+            if not summ:
+                continue
+            for flagged in ([summ[0]], summ):
+                for links in ((), ((lv[0], summ[-1]),), ((summ[0], lv[-1]),)):
+                    if links and (direct_cycle(n, links) or leaf_cycle(par, links) or links[0][0] in ancestors(par, links[0][1])
+                                  or links[0][1] in ancestors(par, links[0][0]) or links[0][0] == links[0][1]):
+                        continue
+                    for sched in scheds:
+                        A = MON if sched == 'fwd' else MON + 21 * DAY
+                        attrs = {i: {'estimate': 4 + 8 * (k % 2), 'resource': 'AB'[k % 2]} for k, i in enumerate(lv)}
+                        for i in flagged:
+                            attrs[i] = {'milestone': True}
+                        for bal in (True, False):
+                            yield Scenario(sched, bal, A, mk_tasks(par, attrs), list(links), layer='L2ms')
+
+
+def L1p(tier, scheds=('fwd', 'bwd')):
+    """Structures of <= 3 tasks (4 in thorough) on which, after building, every illegal link / hierarchy assignment was attempted and
+    rejected (self-links, links with a parent or child, cycles; see scenario.build): the WBS is the same as before the attempts
+    and is scheduled like it."""
+    for sc in L1(tier, scheds, balances=(True,), anchors=[MON], nmax=3 if tier == 'quick' else 4):
+        if sc.links:
+            sc.layer = 'L1p'
+            yield sc
